@@ -75,12 +75,16 @@ ASSUMPTIONS = [
     "curvilinear partition of the data space formed by the images of the "
     "cells of a regular 400x400 latent grid on [-5 sd, 5 sd]^2 (mass "
     "outside <= 1.2e-6; the unit box for the uniform base), cell areas by "
-    "the shoelace formula (no reported log-determinant is used); tolerance "
-    "2e-2 (5e-2 for LARS whose constant is a Monte-Carlo estimate), "
-    "asserted only when the 200x200 and 400x400 sums differ by <= 5e-3 and "
-    "the cells carrying all but 1e-3 of the latent mass are wider than 64 "
-    "ulp of the flow's dtype (else the density cannot be sampled on the "
-    "mesh), otherwise counted inconclusive",
+    "the shoelace formula, density at the image of the cell centre (no "
+    "reported log-determinant is used); cells across which the map is "
+    "strongly non-linear (image of the centre off the mean of the corners "
+    "by > 10% of the diameter) are left out and their latent mass (bounded "
+    "with the closed-form base density) is added to the tolerance; "
+    "tolerance 2e-2 (5e-2 for LARS whose constant is a Monte-Carlo "
+    "estimate); asserted only when the left-out mass is <= 2e-3, the "
+    "200x200 and 400x400 sums differ by <= 5e-3 (+ left-out masses) and the "
+    "cells carrying all but 1e-3 of the latent mass are wider than 64 ulp "
+    "of the flow's dtype, otherwise counted inconclusive",
     "LARS: the first evaluation of a flow whose constant is unset is a batch "
     "of 2048 points; the normalisation oracle is asserted only when "
     "8*cv/sqrt(2048) < 5e-2 (cv = relative spread of the acceptance function "
@@ -691,7 +695,7 @@ def _check_flow(case, out, dname, dtype):
         meas.update(res)
         if res["grid_status"] == "ok":
             lars = _is_lars(model)
-            tol_i = 5e-2 if lars else 2e-2
+            tol_i = (5e-2 if lars else 2e-2) + res["grid_left_out_mass"]
             key5 = "normalisation:2d"
             extra = ""
             if lars and info["lars_reset"]:
@@ -741,85 +745,108 @@ def _integrate_2d(case, fm, model, dtype, var, uniform, twin):
     """Riemann sum of the reported density over a curvilinear partition of
     the data space: the images of the cells of a regular latent grid under
     the (float64 twin's) inverse map.  Cell areas are polygon areas
-    (shoelace formula), so no reported log-determinant enters; any
-    continuous injective mesh generator would do."""
+    (shoelace formula) and the density is taken at the image of the cell's
+    latent centre, so no reported log-determinant enters; any continuous
+    injective mesh generator would do.
+
+    Cells whose image is far from a parallelogram (image of the centre away
+    from the mean of the corners by > 10% of the cell diameter: the map is
+    strongly non-linear across the cell, e.g. spline slopes of 1e3 in the
+    tails) are left out; their latent mass is added to the tolerance."""
     res = {"grid_status": "ok"}
     lars = _is_lars(model)
+    dens_bound = 1.0  # latent density <= dens_bound * Gaussian density
     if lars:
         m, cv, norm = _lars_stats(model, dtype)
         res.update(lars_z=m, lars_cv=cv, lars_norm=norm)
         # the constant in use was estimated from >= 2048 draws
-        if not 8 * cv / math.sqrt(2048) < 5e-2:
+        if not 8 * cv / math.sqrt(2048) < 5e-2 or not norm > 0:
             res["grid_status"] = "inconclusive:lars-cv"
             return res
+        dens_bound = max(1.0, 1.0 / norm)
     n = GRID_N
     if uniform:
         g = np.linspace(0.0, 1.0, n + 1)
     else:
         rad = 5.0 * math.sqrt(var)  # mass outside the square <= 1.2e-6
         g = np.linspace(-rad, rad, n + 1)
-    zn = np.stack(np.meshgrid(g, g, indexing="ij"), -1).reshape(-1, 2)
-    xn = np.concatenate([
-        twin._eval("I", zn[i:i + 40000])[0] for i in range(0, len(zn), 40000)
-    ]).reshape(n + 1, n + 1, 2)
-    if not np.isfinite(xn).all():
+    gc = 0.5 * (g[:-1] + g[1:])
+
+    def image(u, v):
+        zz = np.stack(np.meshgrid(u, v, indexing="ij"), -1).reshape(-1, 2)
+        xx = np.concatenate([
+            twin._eval("I", zz[k:k + 40000])[0]
+            for k in range(0, len(zz), 40000)
+        ])
+        return zz, xx.reshape(len(u), len(v), 2)
+
+    _, xn = image(g, g)
+    zcc, xc = image(gc, gc)
+    if not (np.isfinite(xn).all() and np.isfinite(xc).all()):
         res["grid_status"] = "inconclusive:mesh-nonfinite"
         return res
-
-    # cells must be resolvable in the flow's dtype where the mass is
     eps_d = _eps("float64" if str(dtype).endswith("64") else "float32")
-    zc = 0.5 * (g[:-1] + g[1:])
-    zcc = np.stack(np.meshgrid(zc, zc, indexing="ij"), -1).reshape(-1, 2)
-    wz = np.ones(len(zcc)) if uniform else np.exp(
-        _std_normal_logpdf(zcc, var))
-    a_, b_, c_, d0 = xn[:-1, :-1], xn[1:, :-1], xn[1:, 1:], xn[:-1, 1:]
-    diag = np.minimum(
-        np.abs(c_ - a_).max(axis=-1), np.abs(d0 - b_).max(axis=-1)
-    ).reshape(-1)
-    mag = np.maximum(1.0, np.abs(0.25 * (a_ + b_ + c_ + d0)).max(axis=-1))
-    under = diag < 64 * eps_d * mag.reshape(-1)
-    res["grid_unresolved_mass"] = float(wz[under].sum() / wz.sum())
-    if res["grid_unresolved_mass"] > 1e-3:
-        res["grid_status"] = "inconclusive:resolution"
-        return res
+    h = g[1] - g[0]
 
-    def riemann(step):
-        q = xn[::step, ::step]
+    def riemann(q, cen, zcen, hh):
         a, b, c, d_ = q[:-1, :-1], q[1:, :-1], q[1:, 1:], q[:-1, 1:]
         area = 0.5 * np.abs(
             (a[..., 0] * b[..., 1] - b[..., 0] * a[..., 1])
             + (b[..., 0] * c[..., 1] - c[..., 0] * b[..., 1])
             + (c[..., 0] * d_[..., 1] - d_[..., 0] * c[..., 1])
             + (d_[..., 0] * a[..., 1] - a[..., 0] * d_[..., 1])
-        )
-        cen = (0.25 * (a + b + c + d_)).reshape(-1, 2)
+        ).reshape(-1)
+        diam = np.maximum(
+            np.abs(c - a).max(axis=-1), np.abs(d_ - b).max(axis=-1)
+        ).reshape(-1)
+        mean_c = (0.25 * (a + b + c + d_)).reshape(-1, 2)
+        cen = cen.reshape(-1, 2)
+        bad = np.abs(cen - mean_c).max(axis=-1) > 0.1 * diam
+        # cells must be resolvable in the flow's dtype
+        under = diam < 64 * eps_d * np.maximum(1.0, np.abs(cen).max(axis=-1))
+        wz = (np.ones(len(zcen)) if uniform else np.exp(
+            _std_normal_logpdf(zcen, var))) * hh * hh * dens_bound
         lp = np.concatenate([
-            fm.log_prob(cen[i:i + 40000]) for i in range(0, len(cen), 40000)
+            fm.log_prob(cen[k:k + 40000]) for k in range(0, len(cen), 40000)
         ])
         with np.errstate(over="ignore", invalid="ignore"):
-            return np.exp(lp) * area.reshape(-1)
+            mass = np.exp(lp) * area
+        return mass, bad, under, wz
 
     try:
-        m1 = riemann(1)
-        m0 = riemann(2)
+        m1, bad1, und1, wz1 = riemann(xn, xc, zcc, h)
+        # coarse mesh: 2x2 blocks; their latent centres are fine-mesh nodes
+        zc0 = np.stack(
+            np.meshgrid(g[1::2], g[1::2], indexing="ij"), -1
+        ).reshape(-1, 2)
+        m0, bad0, _, wz0 = riemann(xn[::2, ::2], xn[1::2, 1::2], zc0, 2 * h)
     except Exception as e:  # noqa: BLE001
         raise Violation(
             f"exception:{type(e).__name__}@FlowModel.log_prob(grid)",
             f"log_prob on a grid raised {type(e).__name__}: {str(e)[:200]}",
             case,
         )
-    if np.isnan(m1).any() or np.isnan(m0).any():
+    res["grid_unresolved_mass"] = float(wz1[und1].sum())
+    if res["grid_unresolved_mass"] > 1e-3:
+        res["grid_status"] = "inconclusive:resolution"
+        return res
+    left1, left0 = float(wz1[bad1].sum()), float(wz0[bad0].sum())
+    res["grid_left_out_mass"] = left1
+    if left1 > 2e-3:
+        res["grid_status"] = "inconclusive:mesh-distortion"
+        return res
+    if np.isnan(m1[~bad1]).any() or np.isnan(m0[~bad0]).any():
         if _has_fresh_batchnorm(model):
             res["grid_status"] = "inconclusive:fresh-bn-nan"
             return res
         raise Violation(
             "nan:log_prob(grid)",
-            f"{int(np.isnan(m1).sum())} NaN densities on the grid inside "
-            "the image of the latent square", case,
+            f"{int(np.isnan(m1[~bad1]).sum())} NaN densities on the mesh "
+            "inside the image of the latent square", case,
         )
-    i1, i0 = float(m1.sum()), float(m0.sum())
+    i1, i0 = float(m1[~bad1].sum()), float(m0[~bad0].sum())
     res.update(grid_integral=i1, grid_coarse=i0)
-    if not math.isfinite(i1) or not abs(i1 - i0) <= 5e-3:
+    if not math.isfinite(i1) or not abs(i1 - i0) <= 5e-3 + left1 + left0:
         res["grid_status"] = "inconclusive:quadrature"
     return res
 
